@@ -50,6 +50,8 @@ FORMULAS = [
     "y ~ s:h:g2 + x",  # margins missing: helper terms are created from sets of factors (hash order must not show)
     "y ~ z + (1 | gn)",  # gn has missing values and is used by this formula only
     "y ~ 0 + x:s:h:g2 + (0 + s:h | g)",
+    "y ~ bs(x, knots=kn_u) + C(k, levels=lv_k):z",  # kn_u: the caller's own, unsorted, array
+    "y ~ x + C(k) + (1 | k)",  # k holds the same numbers as int in some frames and as float in frame 1: labels k[3] / k[3.0]
 ]
 MODES = ["error", "warning", "silent"]
 LV_K = [10, 3, 7]
@@ -78,7 +80,18 @@ def make_ns(frame_key):
     """The namespace handed to design_matrices: the SAME names are bound to different objects
     depending on the frame the design is built on."""
     j = int(frame_key[-1]) % 2
-    return {"lv_k": list(LV_K), "hlp": HELPERS[j], "fun": (fun_a, fun_b)[j]}
+    return {"lv_k": list(LV_K), "hlp": HELPERS[j], "fun": (fun_a, fun_b)[j], "kn_u": np.array([0.4, -0.6, 0.1])}
+
+
+def _values(ns):
+    """Contents of the mutable objects a caller passes by name (lists, arrays): they stay the caller's."""
+    out = {}
+    for k, v in ns.items():
+        if isinstance(v, list):
+            out[k] = ("list", tuple(v))
+        elif isinstance(v, np.ndarray):
+            out[k] = ("array", v.dtype.str, v.shape, v.tobytes())
+    return out
 
 
 def used_columns(f, columns):
@@ -158,6 +171,8 @@ def make_frames():
         rng.shuffle(xz)
         df["xz"] = xz if j != 2 else xz + 1.0  # exactly zero mean, except in frame 2
         df["gn"] = df["g"].where(~df.index.isin([0, 3, n - 1]))
+        if j == 1:
+            df["k"] = df["k"].astype(float)
         if j == 1:
             df.index = pd.Index([f"r{i}" for i in range(n)][::-1])
         out.append(df)
@@ -307,6 +322,7 @@ class Runner:
         self.frame_ids = {}
         self.frame_dig = {}
         self.nss = {}
+        self.nsv = {}
         self.shared_env = None
         self.designs = []  # (f, d, dm | None, digest)
         self.results = []  # (obj, digest)
@@ -378,6 +394,7 @@ class Runner:
         if key not in self.nss:
             ns = make_ns(key)
             self.nss[key] = (ns, {k: id(v) for k, v in ns.items()}, repr(sorted(ns)))
+            self.nsv[key] = _values(ns)
         return self.nss[key][0]
 
     def expected(self, op):
@@ -441,6 +458,12 @@ class Runner:
         now = {k: id(v) for k, v in gl.items()}
         ns_changed = any({k: id(v) for k, v in ns.items()} != ids or repr(sorted(ns)) != rp
                          for ns, ids, rp in self.nss.values())
+        for key, (ns, _i, _r) in self.nss.items():
+            if _values(ns) != self.nsv[key]:
+                changed = [k for k, v in _values(ns).items() if self.nsv[key].get(k) != v]
+                m.violation("caller-namespace-untouched", f"{op} changed the contents of the caller's {changed} in place", case=case,
+                            key="namespace-object-mutated")
+                self.nsv[key] = _values(ns)
         if now != gkeys or ns_changed:
             m.violation("caller-namespace-untouched", f"namespace changed by {op}", case=case, key="namespace-changed")
             self.nss = {k: (ns, {a: id(b) for a, b in ns.items()}, repr(sorted(ns))) for k, (ns, _i, _r) in self.nss.items()}
